@@ -11,6 +11,26 @@ props = [json.loads(l)["id"] for l in open(os.path.join(V, "properties.jsonl")) 
 reg = json.load(open(os.path.join(V, "checks", "registry.json")))
 na = json.load(open(os.path.join(V, "checks", "not_applicable.json")))
 
+# per-engine registries (checks/registry.<engine>.json): {"engines": [...] | "engine": {...}, "checks": {...}}
+# or a bare {pid: entry} map
+import glob
+for f in sorted(glob.glob(os.path.join(V, "checks", "registry.*.json"))):
+    x = json.load(open(f))
+    if "checks" in x:
+        engs = x.get("engines") or ([x["engine"]] if "engine" in x else [])
+        chk = x["checks"]
+    else:
+        engs, chk = x.pop("_engines", []), x
+    for e in engs:
+        if e["name"] not in [k["name"] for k in reg["engines"]]:
+            reg["engines"].append(e)
+    for pid, entry in chk.items():
+        if pid.startswith("_"):
+            continue
+        reg["checks"][pid] = entry
+for e in reg["engines"]:
+    e["serves_properties"] = sorted(p for p, c in reg["checks"].items() if c["engine"] == e["name"])
+
 checks = []
 claimed = set()
 for pid in props:
